@@ -69,6 +69,8 @@ class Scenarios:
             scn.append({"sid": it["sid"] + 1, "main": "%d/%s" % (i, it["main"]),
                         "twin": 0 if it["twin"] is None else it["twin"] + 1,
                         "culprit": self._culprit(i, it),
+                        "fault": ({"res": "%d/%s" % (i, it["meta"]["fault"][0]), "n": it["meta"]["fault"][1]}
+                                  if it["meta"].get("fault") else {"res": "", "n": 0}),
                         "opts": [enc_chars(o) for o in it["opts"]]})
         return {"scn": scn, "res": res, "resolve": resolve}
 
@@ -105,7 +107,8 @@ class Scenarios:
     OVERRIDES = {"KeyConvOf": "MCKeyConvOf", "ConvOf": "MCConvOf", "SecConvOf": "MCSecConvOf",
                  "ResLines": "MCResLines", "Resolve": "MCResolve", "Package": "MCPackage",
                  "Schemas": "MCSchemas", "ScnSchema": "MCScnSchema", "ScnMain": "MCScnMain", "ScnOpts": "MCScnOpts",
-                 "ScnTwin": "MCScnTwin", "ScnCulprit": "MCScnCulprit", "ExtSpace": "MCExtSpace"}
+                 "ScnTwin": "MCScnTwin", "ScnCulprit": "MCScnCulprit", "ExtSpace": "MCExtSpace",
+                 "ScnFault": "MCScnFault"}
 
     def run_spec(self, chk, invariants=(), properties=(), workers=6, timeout=3000, extra_values=()):
         """Run TLC over all scenarios; returns the emitted record per scenario."""
@@ -117,7 +120,7 @@ class Scenarios:
                 json.dump(self.to_json(), f)
             cfg = flow.cfg_text(constants={"NScn": len(self.items)}, overrides=self.OVERRIDES,
                                 invariants=["STypeOK", "OnlyConfigErrors", "FramesAreOpenResources", "LifoClose",
-                                            "TwinSameOutcome", "ErrorPositionIsCulprit"]
+                                            "TwinSameOutcome", "ErrorPositionIsCulprit", "AllClosedAtEnd"]
                                 + list(invariants) + ["Emit"],
                                 properties=["DefinesWriteOnce", "FailureIsFinal2"] + list(properties))
 
